@@ -109,12 +109,30 @@ class SStr(Sym):
         return build()
 
 
-class SLowered(Sym):
-    """s.lower() of an SStr, only ever compared with its source"""
+class SLowered(SStr):
+    """s.lower() / s.upper() of an SStr.  Compared with its source it is the cheap per-character fix-point
+    predicate; used as a value it is materialised: exact on ASCII and on non-ASCII characters the mapping
+    leaves unchanged, inconclusive for other non-ASCII characters (their case mapping is not tabulated)."""
     pytype = str
 
-    def __init__(s, src):
+    def __init__(s, src, it, tab='lowfix'):
         s.src = src
+        s.it = it
+        s.tab = tab
+        s.L = src.L
+        s.name = (('lower(' if tab == 'lowfix' else 'upper(') + src.name + ')') if src.name else ''
+        s._chars = None
+
+    @property
+    def n(s):
+        return s.src.n
+
+    @property
+    def chars(s):
+        if s._chars is None:
+            from .models import materialise_case
+            s._chars = materialise_case(s.it, s)
+        return s._chars
 
 
 class SText(Sym):
